@@ -49,7 +49,9 @@ ASSUMPTIONS = [
     "Rx(i-lag,j-lag)*Ry(i,j) for lag < 0",
     "threshold_std: threshold = factor * population std of all float32-cast "
     "samples; the library evaluates it in single precision, so distances "
-    "within 1e-5 (relative) of the threshold may go either way",
+    "within 1e-5 (relative) of the threshold may go either way; samples are "
+    "0 or >= 2^-6 in magnitude for that mode (no float32 underflow in the "
+    "variance)",
     "adaptive neighbourhoods: requested size m with 2m <= N-1 (the docstring "
     "promises mean degree 2m)",
     "twins / twin_surrogates belong to C15 and are not called here",
@@ -655,6 +657,15 @@ def columns(draw, n, d, kind):
 KINDS = ["grid", "grid", "dyadic", "walk", "decimal", "float"]
 
 
+def no_tiny(series):
+    """threshold_std evaluates the standard deviation in single precision:
+    squares of samples below ~1e-19 underflow there.  Samples with 0 < |v| <
+    2^-6 are flushed to 0 for that mode (false alarm seen with y = [0, 4e-30]:
+    float32 std = 0, double std = 2e-30)."""
+    return [[0.0 if (v is not None and 0 < abs(v) < 2.0 ** -6) else v
+             for v in row] for row in series]
+
+
 @st.composite
 def embedding_params(draw, n, p=2):
     """(dim, tau) with at least one state vector, or (None, None)."""
@@ -719,6 +730,8 @@ def rp_cases(draw):
         for _ in range(draw(st.integers(1, max(1, n // 5)))):
             series[draw(st.integers(0, n - 1))][
                 draw(st.integers(0, d - 1))] = None
+    if mode == "threshold_std":
+        series = no_tiny(series)
     V = rref.states(series, dim, tau)
     nv = len(V)
     if mode == "adaptive_neighborhood_size" and nv < 3:
@@ -798,6 +811,8 @@ def joint_cases(draw):
     metric = [draw(st.sampled_from(METRICS)), draw(st.sampled_from(METRICS))]
     mode = draw(st.sampled_from(["threshold", "threshold", "threshold_std",
                                  "recurrence_rate"]))
+    if mode == "threshold_std":
+        x, y = no_tiny(x), no_tiny(y)
     VX = rref.states(x, dim[0] if dim else None, tau[0] if tau else None)
     VY = rref.states(y, dim[1] if dim else None, tau[1] if tau else None)
     ns = min(len(VX), len(VY))
